@@ -613,4 +613,4 @@ EVIDENCE = {"C19": {
                     "a worker killed mid-chunk and failing input files are not simulated (outside C19)",
                     "the reference for a file is produced in a pristine forked child with freshly loaded settings"],
 }}
-REQUIRED_PROBES = {"C19": ["chunk_with_two_tasks", "worker_executed_two_chunks"]}
+REQUIRED_PROBES = {"C19": ["chunk_with_two_tasks", "worker_executed_two_chunks", "result_kept_although_its_figure_failed"]}
